@@ -3,9 +3,15 @@ package c09
 import (
 	"bufio"
 	"bytes"
+	"crypto/ecdsa"
+	"crypto/elliptic"
+	crand "crypto/rand"
 	"crypto/tls"
+	"crypto/x509"
+	"crypto/x509/pkix"
 	"fmt"
 	"io"
+	"math/big"
 	"math/rand"
 	"net"
 	"net/http"
@@ -60,6 +66,27 @@ func clientHelloN(name string, small bool, alpn int) []byte {
 	b := cc.w.Bytes()
 	n := int(b[3])<<8 | int(b[4])
 	return append([]byte(nil), b[:5+n]...)
+}
+
+var (
+	certOnce sync.Once
+	theCert  tls.Certificate
+)
+
+func tunnelCert() tls.Certificate {
+	certOnce.Do(func() {
+		key, err := ecdsa.GenerateKey(elliptic.P256(), crand.Reader)
+		if err != nil {
+			panic(err)
+		}
+		tmpl := &x509.Certificate{SerialNumber: big.NewInt(9), Subject: pkix.Name{CommonName: "c09"}, NotBefore: time.Now().Add(-time.Hour), NotAfter: time.Now().Add(24 * time.Hour)}
+		der, err := x509.CreateCertificate(crand.Reader, tmpl, tmpl, &key.PublicKey, key)
+		if err != nil {
+			panic(err)
+		}
+		theCert = tls.Certificate{Certificate: [][]byte{der}, PrivateKey: key}
+	})
+	return theCert
 }
 
 // ---------------------------------------------------------------------------
@@ -139,7 +166,7 @@ func genSegments(t *rapid.T, label string, total int) (sizes []int, yields []boo
 func genTunnel(t *rapid.T, kinds []string) tunnel {
 	tn := tunnel{kind: rapid.SampledFrom(kinds).Draw(t, "kind")}
 	tn.mode = rapid.SampledFrom([]string{"both/upstream-closes", "both/client-closes", "client-only", "upstream-only", "half-close"}).Draw(t, "mode")
-	tn.pxyproto = (tn.kind == "tcp" || tn.kind == "sni") && rapid.Bool().Draw(t, "pxyproto")
+	tn.pxyproto = (tn.kind == "tcp" || tn.kind == "sni" || tn.kind == "tcp+tls") && rapid.Bool().Draw(t, "pxyproto")
 	switch tn.mode {
 	case "client-only":
 		tn.client = genStream(t, "c", false)
@@ -148,6 +175,11 @@ func genTunnel(t *rapid.T, kinds []string) tunnel {
 	default:
 		tn.client = genStream(t, "c", true)
 		tn.upstream = genStream(t, "u", true)
+	}
+	if tn.kind == "tcp+tls" && len(tn.client) == 0 && len(tn.upstream) == 0 {
+		// an upstream that hangs up without a byte ends the connection before the
+		// (lazy) server-side TLS handshake: nothing to deliver, nothing to compare
+		tn.upstream = []byte{0x42}
 	}
 	tn.cseg, tn.cyield = genSegments(t, "cs", len(tn.client))
 	tn.useg, tn.uyield = genSegments(t, "us", len(tn.upstream))
@@ -325,6 +357,9 @@ func runTunnel(tn tunnel) (res result) {
 		}
 		var h tcp.Handler
 		switch tn.kind {
+		case "tcp+tls": // TLS is terminated by the listener, the tunnel carries the plain text
+			ln = tls.NewListener(ln, &tls.Config{Certificates: []tls.Certificate{tunnelCert()}})
+			h = &tcp.Proxy{Lookup: lookup, DialTimeout: 5 * time.Second}
 		case "tcp":
 			h = &tcp.Proxy{Lookup: lookup, DialTimeout: 5 * time.Second}
 		case "sni":
@@ -352,7 +387,17 @@ func runTunnel(tn tunnel) (res result) {
 	}
 	defer c.Close()
 	c.SetDeadline(time.Now().Add(ioTimeout))
-	tc := c.(*net.TCPConn)
+	rawConn := c
+	type halfCloser interface{ CloseWrite() error }
+	if tn.kind == "tcp+tls" {
+		tc := tls.Client(c, &tls.Config{InsecureSkipVerify: true})
+		if err := tc.Handshake(); err != nil {
+			fail("client: TLS handshake with the listener: %v", err)
+			return
+		}
+		c = tc
+	}
+	tc := c.(halfCloser)
 	var clientIn io.Reader = c
 	if tn.kind == "ws" {
 		req := "GET /ws HTTP/1.1\r\nHost: ws.example\r\nUpgrade: websocket\r\nConnection: Upgrade\r\nSec-WebSocket-Key: dGhlIHNhbXBsZSBub25jZQ==\r\nSec-WebSocket-Version: 13\r\n\r\n"
@@ -460,7 +505,7 @@ func runTunnel(tn tunnel) (res result) {
 	res.clientGot = got.Bytes()
 	// what the PROXY line must say
 	if tn.pxyproto {
-		ca, sa := c.LocalAddr().(*net.TCPAddr), c.RemoteAddr().(*net.TCPAddr)
+		ca, sa := rawConn.LocalAddr().(*net.TCPAddr), rawConn.RemoteAddr().(*net.TCPAddr)
 		want := fmt.Sprintf("PROXY TCP4 %s %s %d %d\r\n", ca.IP, sa.IP, ca.Port, sa.Port)
 		mu.Lock()
 		if res.proxyLine != want {
@@ -544,7 +589,7 @@ const knownHalfClose = "c09-half-close"
 
 func TestC09Tunnels(t *testing.T) {
 	hx.Check(t, hx.Scale(2000, 16000), func(t *rapid.T) {
-		tn := genTunnel(t, []string{"tcp", "sni", "dynamic", "ws"})
+		tn := genTunnel(t, []string{"tcp", "sni", "dynamic", "ws", "tcp+tls"})
 		if tn.mode == "half-close" && hx.Known(knownHalfClose) {
 			// recorded finding: excluded from the search by construction so that the
 			// search continues behind it; re-confirmed in TestC09KnownHalfClose
